@@ -63,6 +63,12 @@ OPS += [
     op("csum1", "chain", "derive", [S_ANY], "=0", "{r} = compressed_sum([{a0}])", "CompressedSum", 1.5, "cmp"),
     op("csum1_m2", "chain", "derive", [S_ANY], "=0", "{r} = compressed_sum([{a0}], temp_m_trunc=2)", "CompressedSum", 1.0, "cmp"),
     op("csum2", "chain", "derive", [S_ANY, "=0"], "=0", "{r} = compressed_sum([{a0}, {a1}])", "CompressedSum", 1.0, "cmp"),
+    op("expand_hint", "chain", "derive", [S_ST, ("ham",)], "=0",
+       "{a0}.compress_config = CompressConfig(CompressCriteria.fixed, max_bonddim=6)\n{r} = {a0}.expand_bond_dimension(hint_mpo={a1}, include_ex=False)", "Expand", 1.5, "cmp6"),
+    op("expand_hint_ex", "chain", "derive", [S_ST, ("ham",)], "=0",
+       "{a0}.compress_config = CompressConfig(CompressCriteria.fixed, max_bonddim=6)\n{r} = {a0}.expand_bond_dimension(hint_mpo={a1}, include_ex=True)", "Expand", 1.0, "cmp6"),
+    op("expand_random", "chain", "derive", [("mps",)], "=0",
+       "{a0}.compress_config = CompressConfig(CompressCriteria.fixed, max_bonddim=6)\n{r} = {a0}.expand_bond_dimension()", "Expand", 0.7, "cmp6"),
     op("evolve_exact", "chain", "derive", [S_ST, ("ham",)], "=0", "{r} = {a0}.evolve_exact({a1}, 0.3, 'GS')", "EvolveExact", 2.0),
     op("evolve_exact_ex", "chain", "derive", [S_ST, ("ham",)], "=0", "{r} = {a0}.evolve_exact({a1}, 0.2, 'EX')", "EvolveExact", 1.0),
 ]
@@ -127,6 +133,10 @@ OPS += [
     op("contract", "tree", "derive", [("ttno",), T_ST], "=1", "{r} = {a0}.contract({a1})", "Contract", 1.5, "cmp"),
     op("cano_copy", "tree", "derive", [T_ST], "=0", "{r} = {a0}.copy()\n{r}.canonicalise()", "CanoCopy"),
     op("compress_copy", "tree", "derive", [T_ST], "=0", "{r} = {a0}.copy()\n{r}.canonicalise()\n{r}.compress(temp_m_trunc=2)", "CompressCopy", 1.0, "cmp"),
+    op("expand_hint", "tree", "derive", [T_ST, ("ham",)], "=0",
+       "{a0}.compress_config = CompressConfig(CompressCriteria.fixed, max_bonddim=6)\n{r} = expand_bond_dimension_general({a0}, hint_mpo={a1})", "Expand", 1.5, "cmp6"),
+    op("expand_random", "tree", "derive", [T_ST], "=0",
+       "{a0}.compress_config = CompressConfig(CompressCriteria.fixed, max_bonddim=6)\n{r} = expand_bond_dimension_general({a0})", "Expand", 0.7, "cmp6"),
     op("csum1", "tree", "derive", [T_ST], "=0", "{r} = compressed_sum([{a0}])", "CompressedSum", 1.0, "cmp"),
     op("csum2", "tree", "derive", [T_ST, "=0"], "=0", "{r} = compressed_sum([{a0}, {a1}])", "CompressedSum", 1.0, "cmp"),
 ]
@@ -214,6 +224,8 @@ def gen_program(rng, world, pid, length=None, force_op=None):
                 newm = ms[0] * ms[1]
             elif g == "apply_r":
                 newm = ms[0] * ms[1]
+            elif g == "cmp6":
+                newm = 6
             elif g == "cmp":
                 newm = min(max(ms), 4) if o["model"] != "CompressedSum" else 4
             if newm > MAXM:
